@@ -11,3 +11,9 @@ classdef("Features", rec=True,
                  "feasible": "Real", "precision": "Int", "start_time": "Real", "finish_time": "Real",
                  "velocity": "List[Real]", "best_cost": "List[Real]", "best_vector": "List[Real]",
                  "sensitivity": "Real"})
+
+classdef("Dominance", fields={})
+classdef("ParetoDominance", bases=["Dominance"], fields={})
+classdef("EpsilonDominance", bases=["Dominance"], fields={"epsilons": "List[Real]"})
+
+classdef("Archive", fields={"_dominance": "Ref[Dominance]", "_contents": "List[Ref[Individual]]"})
